@@ -204,6 +204,7 @@ def c03(repo, res):
     _emit(res, "F1", "magpylib/_src/fields/field_wrap_BH.py", dom, "getBH_level1")
     ff_judged = dom.sites_fieldfunc if hasattr(dom, "sites_fieldfunc") else None
     un = unjudged_sites(node, dom)
+    field_independent_sites(res, node, dom, "magpylib/_src/fields/field_wrap_BH.py", "getBH_level1")
     ok_ret = isinstance(out, Vec) and out.axes == "G"
     res.ob("F1:getBH_level1:observers->source frame->global", ok_ret and not dom.flist and not un,
            {"rule": "F1", "function": "getBH_level1", "judged_sites": sorted(t for _, t in dom.judged.values()), "returns": repr(out)})
@@ -283,6 +284,8 @@ def c04(repo, res):
         for h in late:
             res.add(Finding("F6:order", rel, "getBH_level2", h.test, "the left-handed x flip is applied after pixel_agg: reducers such as min/max/std/ptp "
                             "do not commute with the sign change", h.lineno))
+    # ---- F10: the transformation into the sensor frame is the same for all four fields
+    field_independent_sites(res, node, dom, rel, "getBH_level2")
     # ---- F7: the handedness flip is applied to every sensor, whatever its rotation state
     parents = {}
     for x in ast.walk(node):
@@ -352,6 +355,26 @@ def c04(repo, res):
     return {}
 
 
+def field_independent_sites(res, node, dom, rel, fname, rule="F10"):
+    """frame transformations must not be control dependent on `field`: B, H, J and M are all vectors and change frames alike"""
+    parents0 = {}
+    for x in ast.walk(node):
+        for ch in ast.iter_child_nodes(x):
+            parents0[id(ch)] = x
+    for x in ast.walk(node):
+        if id(x) in dom.judged and dom.judged[id(x)][0] in ("apply", "frame-change-store"):
+            p = parents0.get(id(x))
+            guards = []
+            while p is not None:
+                if isinstance(p, (ast.If, ast.IfExp)) and any(isinstance(y, ast.Name) and y.id == "field" for y in ast.walk(p.test)):
+                    guards.append(norm(p.test))
+                p = parents0.get(id(p))
+            res.ob(f"{rule}:{fname}:{norm(x)[:50]}", not guards, None, nontrivial=False)
+            if guards:
+                res.add(Finding(f"{rule}:field-dependent-frame", rel, fname, x, f"a frame transformation is applied only for some fields ({guards}): "
+                                "B, H, J and M are all vectors and must change frames alike", x.lineno))
+
+
 def path_quantifier_rule(res, fn, rel, fname, rule="F5"):
     """fast-path predicates over an orientation path (`unrotated`, `static orientation`) must quantify over *all* path
     entries: a comparison that only inspects constant-indexed entries of the path cannot decide a property of every entry."""
@@ -360,9 +383,19 @@ def path_quantifier_rule(res, fn, rel, fname, rule="F5"):
         return isinstance(e, (ast.Call, ast.Attribute)) and ("orientation" in t) and not isinstance(e, ast.Subscript)
     pvars = set()
     for n in ast.walk(fn):
-        if isinstance(n, ast.Assign) and len(n.targets) == 1 and isinstance(n.targets[0], ast.Name) and is_path_expr(n.value) \
-                and "as_quat" in ast.unparse(n.value):
+        if isinstance(n, ast.Assign) and len(n.targets) == 1 and isinstance(n.targets[0], ast.Name) and "as_quat" in ast.unparse(n.value):
+            v = n.value
+            lossy = isinstance(v, ast.Call) and (getattr(v.func, "attr", None) or getattr(v.func, "id", "")) in (
+                "abs", "fabs", "absolute", "round", "around", "rint", "floor", "ceil", "sign", "trunc", "square", "clip") and \
+                any("as_quat" in ast.unparse(a) for a in v.args)
+            if not (lossy or (isinstance(v, ast.Call) and isinstance(v.func, ast.Attribute) and v.func.attr == "as_quat")):
+                continue
             pvars.add(n.targets[0].id)
+            if lossy:
+                # e.g. np.abs(q) / np.round(q): different orientations can have equal images -> the predicate accepts moving paths
+                res.ob(f"{rule}b:{fname}:{norm(n)}", False)
+                res.add(Finding(f"{rule}:lossy-path", rel, fname, n, "the orientation path is passed through a non-injective function before it is "
+                                "compared: distinct orientations can compare equal, so a rotating path can be classified as static/unrotated", n.lineno))
     parents = {}
     for n in ast.walk(fn):
         for c in ast.iter_child_nodes(n):
